@@ -69,12 +69,37 @@ func (d *c04Dev) byteAt(o int64) byte {
 		r := &d.log[i]
 		idx := o - r.off
 		in := uint64(idx) < uint64(r.n)
-		v = vp.IteU8(in, r.data[vp.IteI64(in, idx, 0)], v)
+		v = vp.IteU8(in, r.data[idx&int64(len(r.data)-1)], v) // len(r.data) is a power of two
 	}
 	return v
 }
 
+// c04NP: whether the harness is inside a NoPanic region (the device's own index arithmetic is
+// not code under test: it runs with panic checking off and restores the region afterwards).
+var c04NP bool
+
+func c04NoPanic()    { c04NP = true; vp.NoPanic() }
+func c04AllowPanic() { c04NP = false; vp.AllowPanic() }
+
 func (d *c04Dev) ReadAt(p []byte, off int64) (int, error) {
+	vp.AllowPanic()
+	n, err := d.readAt(p, off)
+	if c04NP {
+		vp.NoPanic()
+	}
+	return n, err
+}
+
+func (d *c04Dev) WriteAt(p []byte, off int64) (int, error) {
+	vp.AllowPanic()
+	n, err := d.writeAt(p, off)
+	if c04NP {
+		vp.NoPanic()
+	}
+	return n, err
+}
+
+func (d *c04Dev) readAt(p []byte, off int64) (int, error) {
 	if off < 0 {
 		return 0, fmt.Errorf("c04Dev: negative offset")
 	}
@@ -112,7 +137,7 @@ func (d *c04Dev) ReadAt(p []byte, off int64) (int, error) {
 	return n, nil
 }
 
-func (d *c04Dev) WriteAt(p []byte, off int64) (int, error) {
+func (d *c04Dev) writeAt(p []byte, off int64) (int, error) {
 	d.writes++
 	if off < 0 {
 		return 0, fmt.Errorf("c04Dev: negative offset")
@@ -168,7 +193,11 @@ func (d *c04Dev) WriteAt(p []byte, off int64) (int, error) {
 	if !vp.IsConst(int64(n)) {
 		k = d.symCap
 	}
-	cp := make([]byte, k)
+	p2 := 1
+	for p2 < k {
+		p2 *= 2
+	}
+	cp := make([]byte, p2)
 	copy(cp, p)
 	d.log = append(d.log, c04Rec{off: off, n: n, data: cp})
 	return n, nil
